@@ -388,15 +388,17 @@ class SimpleProcessTensor(BaseProcessTensor):
         last_cap = tn.Node(caps[-1])
 
         for step in reversed(range(length)):
-            trace_square = tn.Node(self._trace_square)
             trace_in = tn.Node(self._trace_in)
             trace_out = tn.Node(self._trace_out)
             ten = tn.Node(self._mpo_tensors[step])
 
             if len(ten.shape) == 3:
+                # one leg for input and output (implicit delta): close it
+                # with the product of the (transformed) trace vectors
+                trace_in_out = tn.Node(self._trace_in * self._trace_out)
                 ten[1] ^ last_cap[0]
-                ten[2] ^ trace_square[0]
-                new_cap = ten @ last_cap @ trace_square
+                ten[2] ^ trace_in_out[0]
+                new_cap = ten @ last_cap @ trace_in_out
             else:
                 ten[1] ^ last_cap[0]
                 ten[2] ^ trace_in[0]
